@@ -68,7 +68,8 @@ type flattener struct {
 	localNames map[string]bool // every name declared inside the enclosing function
 	call       *ast.CallExpr   // the literal call found
 	lit        *ast.FuncLit
-	pre        []ast.Expr // expressions evaluated before the call that need a temporary
+	pre        []ast.Expr        // expressions evaluated before the call that need a temporary
+	preAddr    map[ast.Expr]bool // of those: assignment targets, held as `t := &target` and written through `*t`
 }
 
 func (fl *flattener) text(n ast.Node) string {
@@ -440,18 +441,34 @@ func (fl *flattener) scanSimple(s ast.Stmt) scanRes {
 			return scAbort
 		}
 		var parts []ast.Expr
-		allOK := true
+		var byAddr []ast.Expr
 		for _, l := range x.Lhs {
 			ok, ops := fl.lhsOK(l)
 			if !ok {
-				allOK = false
+				// a target that is not a plain local (a.b.c, p.items[i]): its address is taken before the call and the
+				// result is written through it; a target that has no address (a map element) makes the text fail to
+				// type-check, and the caller then keeps the literal call
+				if x.Tok != token.ASSIGN || containsIIFE(l) {
+					if containsIIFE(x) {
+						return scAbort
+					}
+					return scUnstable
+				}
+				byAddr = append(byAddr, l)
+				continue
 			}
 			parts = append(parts, ops...)
 		}
 		parts = append(parts, x.Rhs...)
 		r := fl.seq(parts, true)
-		if r == scFound && !allOK {
-			return scAbort
+		if r == scFound && len(byAddr) > 0 {
+			if fl.preAddr == nil {
+				fl.preAddr = map[ast.Expr]bool{}
+			}
+			for _, l := range byAddr {
+				fl.pre = append(fl.pre, l)
+				fl.preAddr[l] = true
+			}
 		}
 		return r
 	case *ast.ReturnStmt:
@@ -647,6 +664,11 @@ func flattenOne(filename string, src []byte, pkgVars map[string]bool) ([]byte, b
 	var repls []repl
 	for _, e := range fl.pre {
 		t := fresh("ucfgInlTmp")
+		if fl.preAddr[e] {
+			fmt.Fprintf(&b, "%s := &(%s)\n", t, text(e))
+			repls = append(repls, repl{fset.Position(e.Pos()).Offset, fset.Position(e.End()).Offset, "(*" + t + ")"})
+			continue
+		}
 		fmt.Fprintf(&b, "%s := %s\n", t, text(e))
 		repls = append(repls, repl{fset.Position(e.Pos()).Offset, fset.Position(e.End()).Offset, t})
 	}
